@@ -157,6 +157,27 @@ def main():
             if not okr:
                 fail('pack', {'roundtrip': True, 'dims': d, 'mnl': mnl,
                               'offsetx': ox, 'offsety': oy})
+        # pack2: in place, on every column of a matrix with extra rows
+        for mnl in (0, 2):
+            for ncols, extra in ((1, 0), (3, 2), (2, 5)):
+                if not d['s'] or max(d['s']) == 0:
+                    continue
+                rows = mnl + tot + extra
+                x0 = vec(rows * ncols)
+                x = matrix(x0, (rows, ncols))
+                misc_solvers.pack2(x, d, mnl)
+                want = list(x0)
+                for c_ in range(ncols):
+                    col = x0[c_ * rows:(c_ + 1) * rows]
+                    out = list(col)
+                    ref_pack(col, out, d, mnl, 0, 0)
+                    want[c_ * rows:(c_ + 1) * rows] = out
+                # in place: nothing but the packed positions is written, so
+                # whole columns are compared
+                okp = close(list(x), want)
+                if not okp:
+                    fail('pack2', {'dims': d, 'mnl': mnl, 'columns': ncols,
+                                   'rows': rows})
         for mnl in (0, 2):
             x0, y0 = vec(mnl + tot), vec(mnl + tot)
             if mnl + tot == 0:
